@@ -149,6 +149,8 @@ def w_basic(ctx, rng, i):
             fxy = F(a_ * x + b_ * y)
             const = complex(rng.normal(0, 3), rng.normal(0, 3))
             fc = D.BPF(T.optical_signal(np.full(shape, const)), cutb, order)
+            xi = rng.integers(-9, 10, shape)
+            ctx.check("forms", relerr(D.BPF(T.optical_signal(xi.copy()), cutb, order).signal, D.BPF(T.optical_signal(xi.astype(complex)), cutb, order).signal) <= 1e-12, "BPF of an integer-valued field differs from BPF of the same values as complex")
             if n_pol == 2:   # rows are filtered independently: row-swapped input gives row-swapped output
                 fsw = F(x[::-1].copy())
                 ctx.check("rows_independent", relerr(fsw.signal, fx.signal[::-1]) <= 1e-12, "BPF rows are not filtered independently")
